@@ -54,7 +54,7 @@ class Ref:
 
 
 class Exec:
-    def __init__(self, spec: dict, integ: str, known: list[list[str]], prop: str) -> None:
+    def __init__(self, spec: dict, integ: str, known: list[list[str]], prop: str, fault_mode: str = "fail") -> None:
         from mxlpy import Simulator
 
         self.spec = spec
@@ -63,7 +63,8 @@ class Exec:
         self.known = known
         self.model = models.build_model(spec)
         # every run's integrator fails while a parameter holds the poison value (content-keyed)
-        self.sim = Simulator(self.model, integrator=integrators.FaultyFactory(integ, poison=(POISON,)), test_run=False)
+        # ... either by reporting failure (mode "fail") or by the solver itself raising ("raise")
+        self.sim = Simulator(self.model, integrator=integrators.FaultyFactory(integ, poison=(POISON,), mode=fault_mode), test_run=False)
         self.ref = Ref(spec)
         self.trace = Trace()
         self.violations: list[dict] = []
@@ -330,6 +331,29 @@ class Exec:
         if not was_empty:
             self.had_continuation = True
             self.counters[f"continuation:{k}:{ctx}"] += 1
+        if exc == "SimulatedSolverCrash":
+            # the solver blew up inside the call (injected while the poison value is in force,
+            # possibly in a LATER protocol step): the caller catches it and goes on with the same
+            # simulator.  Nothing is demanded of the failed call except that it leaves reported rows
+            # alone; everything after it is judged from the state the simulator reports.
+            self.counters["fault_fired:solver_crash_in_segment"] += 1
+            if is_protocol and len(t1) > n0:
+                self.counters["probe:protocol_crashed_after_completed_steps"] += 1
+            if len(t1) < n0 or (n0 and not (np.array_equal(t1[:n0], t0) and np.array_equal(v1[:n0], v0))):
+                self._viol(prop, "history_rewritten", ["history_rewritten", k, after, "solver_crash"], f"{k} raised {exc} and changed rows that had already been reported")
+                self.resync()
+            elif len(t1) > n0:
+                self.resync()  # completed protocol steps stay; go on from the last reported row
+            else:
+                # nothing was added: time, state (incl. a pending override) stay; the parameters
+                # are whatever the model now holds
+                try:
+                    pv = self.model.get_parameter_values()
+                    ref.p = {n: float(pv[n]) for n in ref.p}
+                except Exception:  # noqa: BLE001
+                    pass
+            self.ctx = "crash" if len(t1) > n0 or ctx != "override" else "override"
+            return
         if errs := getattr(self.sim, "_errors", None):
             # integration failure inside the call: simulator is dead until cleared
             ref.dead = True
@@ -584,6 +608,7 @@ class Gen:
         self.cfg = cfg
         self.spec = spec
         self.kept: dict = {}  # array id -> (points, relative) the simulated caller keeps around
+        self.pending: list[dict] = []  # follow-up ops of a burst
         self.pnames = models.FAMILIES[spec["family"]][1]
         self.vnames = models.FAMILIES[spec["family"]][0]
 
@@ -593,8 +618,22 @@ class Gen:
             return r.choice([-1.0, -0.5, -0.25, 0.25, 0.5])
         return r.choice([0.25, 0.5, 1.0, 1.5, 2.0, 3.0])
 
-    def protocol_steps(self) -> list:
+    def protocol_steps(self, T: float = 0.0) -> list:  # noqa: N803
         r = self.rng("protocol")
+        steps = self._protocol_steps(r)
+        if T >= 100 and r.random() < 0.5:
+            # flashes: steps that are tiny relative to the clock (1/128, 1/1024 are exact in binary)
+            for st in steps:
+                if r.random() < 0.6:
+                    st[0] = r.choice([1 / 128, 1 / 512, 2 / 128, 1 / 256])  # whole nanoseconds: the protocol index is a Timedelta
+        if self.cfg.get("faults") and len(steps) >= 2 and r.random() < 0.2:
+            # the fault comes into force in a LATER step of the protocol
+            j = r.randrange(1, len(steps))
+            nm = sorted(steps[j][1])[0]
+            steps[j][1][nm] = POISON
+        return steps
+
+    def _protocol_steps(self, r) -> list:  # noqa: ANN001
         if self.kept.get("__proto__") and r.random() < 0.45:
             steps = copy.deepcopy(self.kept["__proto__"])
             if r.random() < 0.6:
@@ -621,6 +660,17 @@ class Gen:
         if kind == "simulate":
             if illegal and T > 0:
                 t_end = r.choice([T, T - 0.25, T / 2, 0.0, T])
+            elif T >= 100 and r.random() < 0.35:
+                # a very short stretch at a large clock; often framed by two overrides of different variables
+                t_end = T + r.choice([1 / 128, 1 / 512, 1 / 256])  # whole nanoseconds (protocol indices are Timedeltas)
+                if len(self.vnames) > 1 and r.random() < 0.6:
+                    a, b = r.sample(self.vnames, 2)
+                    self.pending = [
+                        {"op": "simulate", "t_end": t_end, "steps": r.choice([None, 1, 2])},
+                        {"op": "update_variable", "name": b, "value": r.choice([0.5, 2.0, 3.0, 5.0])},
+                        {"op": "simulate", "t_end": t_end + r.choice([0.5, 1.0, 2.0]), "steps": r.choice([None, 2, 5])},
+                    ]
+                    return {"op": "update_variable", "name": a, "value": r.choice([0.5, 2.0, 3.0, 5.0])}
             elif long_ok and r.random() < 0.2:
                 t_end = T + r.choice([100.0, 1000.0, 1024.0])  # a long stretch: large clock afterwards
             else:
@@ -651,7 +701,7 @@ class Gen:
                 op["as"] = r.choice(["list", "index"])
             return op
         if kind == "protocol":
-            op = {"op": "protocol", "steps": self.protocol_steps(), "tpps": r.choice([1, 2, 3, 10])}
+            op = {"op": "protocol", "steps": self.protocol_steps(T), "tpps": r.choice([1, 2, 3, 10])}
             if r.random() < 0.5:
                 op["proto"] = "P"
                 op["proto_how"] = r.choice(["edit", "derive", "again"])
@@ -659,7 +709,7 @@ class Gen:
                 op["hold"] = True
             return op
         if kind == "protocol_tc":
-            steps = self.protocol_steps()
+            steps = self.protocol_steps(T)
             total = sum(s[0] for s in steps)
             rel = r.random() < 0.5
             base = 0.0 if rel else T
@@ -748,6 +798,7 @@ def make_config(rng: SimRng, prop: str, tier: str, avoid: set[str]) -> dict:
         "long_jumps": r.random() < 0.2,
         "faults": r.random() < 0.25,
         "start_poisoned": r.random() < 0.06,
+        "fault_mode": "raise" if r.random() < 0.35 else "fail",
     }
 
 
@@ -788,12 +839,20 @@ class SimTimeMachine(Machine):
         spec = gen_spec(rng, self.prop, cfg["integrator"])
         if cfg.get("start_poisoned"):
             spec["params"][sorted(spec["params"])[0]] = POISON  # the very first run fails
-        ex = Exec(spec, cfg["integrator"], known, self.prop)
+        ex = Exec(spec, cfg["integrator"], known, self.prop, cfg.get("fault_mode", "fail"))
         gen = Gen(rng, cfg, spec)
         ops: list[dict] = []
         for i in range(cfg["n_ops"]):
+            if gen.pending and not ex.ref.dead:
+                op = gen.pending.pop(0)
+                ops.append(op)
+                ex.step(i, op)
+                if ex.stop():
+                    break
+                continue
+            gen.pending = []
             kind = rng.weighted("plan", list(cfg["ops"].items()))
-            if ex.ref.dead and rng("plan").random() < 0.7:
+            if (ex.ref.dead or POISON in ex.ref.p.values()) and rng("plan").random() < 0.7:
                 # recover: put a healthy value back where the poison is, then clear
                 bad = [n for n, v in ex.ref.p.items() if v == POISON]
                 kind = "__heal__" if bad else "clear"
@@ -817,7 +876,7 @@ class SimTimeMachine(Machine):
         return self._result(case, ex)
 
     def replay(self, case: dict, known: list[list[str]]) -> RunResult:
-        ex = Exec(case["spec"], case["integrator"], known, self.prop)
+        ex = Exec(case["spec"], case["integrator"], known, self.prop, (case.get("config") or {}).get("fault_mode", "fail"))
         for i, op in enumerate(case["ops"]):
             ex.step(i, op)
             if ex.stop():
